@@ -333,8 +333,19 @@ def check_and_load_args(args, parser):
         parser.print_usage()
         exit(-1)
 
+    if not args.resume:
+        clean_previous_run_locks(args)
     save_params(args)
     return args
+
+
+def clean_previous_run_locks(args):
+    # a new run into a used output folder: the locks of the previous run must be gone before the parameters of
+    # this run are saved, otherwise an interrupted run that is resumed later trusts the intermediate files of the old one
+    for sample in args.input_data.samples:
+        for lock_suffix in ["_lock", "_collected", "_processed"]:
+            for lock_file in glob.glob(os.path.join(glob.escape(sample.aux_dir), "*" + lock_suffix)):
+                os.remove(lock_file)
 
 
 def load_previous_run(args):
